@@ -326,7 +326,7 @@ func RuleSeq(p *core.Prog, r *core.Report) {
 	if sv := p.Main.Pkg.Scope().Lookup("SpecValidator"); sv != nil {
 		st := sv.Type().Underlying().(*types.Struct)
 		for i := 0; i < st.NumFields(); i++ {
-			if st.Field(i).Name() == "Options" {
+			if core.FieldName(st, i) == "Options" {
 				if _, isPtr := st.Field(i).Type().(*types.Pointer); isPtr {
 					r.Bad(rule, "options-per-validator", p.Pos(sv.Pos()), "SpecValidator.Options is a pointer: validators share (and race on) one option set")
 				} else {
@@ -981,7 +981,7 @@ func RawAnalyzer(p *core.Prog, r *core.Report) {
 		r.Unk(rule, "fields", p.Pos(acc.Pos()), "cannot tell the raw analyzer field from the expanded one")
 		return
 	}
-	rawName := st.Field(rawIdx).Name()
+	rawName := core.FieldName(st, rawIdx)
 	n := 0
 	for _, f := range p.Funcs {
 		top := core.EnclosingTop(f)
@@ -1437,7 +1437,7 @@ func presencePointer(t types.Type, seen map[types.Type]bool, d int, path string)
 			if !u.Field(k).Exported() {
 				continue // gob ignores unexported fields altogether
 			}
-			fp := u.Field(k).Name()
+			fp := core.FieldName(u, k)
 			if path != "" {
 				fp = path + "." + fp
 			}
@@ -1553,7 +1553,7 @@ func ValueOptions(p *core.Prog, r *core.Report) {
 	}
 	var swNames []string
 	for k := range switches {
-		swNames = append(swNames, ost.Field(k).Name())
+		swNames = append(swNames, core.FieldName(ost, k))
 	}
 	sort.Strings(swNames)
 	// walker types: structs holding the *SpecValidator and a field of type *SchemaValidatorOptions
@@ -1680,7 +1680,7 @@ func ValueOptions(p *core.Prog, r *core.Report) {
 							}
 						}
 						if !off {
-							missing = append(missing, ost.Field(k).Name())
+							missing = append(missing, core.FieldName(ost, k))
 						}
 					}
 					return missing
